@@ -17,6 +17,8 @@ func checkC02(e *Env) {
 	e.R.Explanation = "Decided (structural necessary conditions of C02): (a) length-field guard exactness: EncodeBytesUint, evaluated by constant propagation for each width 1..6 at n = 2^(8*size)-1 (must encode) and n = 2^(8*size) (must be refused), and for n = -1; the bytes stored are (n >> 8*(size-i-1)) & 0xff, big-endian; (b) the limits are gates of Exchange.Write for b2/b3: len(Signature) <= 16384, headerLength <= 524288, and the three EncodeBytesUint calls (URL width 2, signature width 3, headers width 3) succeeded; b1: the two width-3 calls; each length field is written before the bytes it measures; (c) the widths the writer passes (2, 3, 3) are the widths the reader decodes (uint16, [3]byte, [3]byte) and the reader allocates exactly the decoded lengths; (d) header maps: the pseudo keys are the same package variables on both sides, names are lower-cased and values joined with ',' on write, upper-case names refused on read; (e) MiEncodePayload takes encoding, content-encoding and digest-header name from e.Version.MiceEncoding(), as verifyPayload does, and refuses an exchange that already has a digest header. " +
 		"Not decided: equality of what is read back with what was written; verdict stability over [date, expires]; the MI round trip (C14); the order of the fields (pinned by the golden tests)."
 	e.R.RuleText = "constant propagation under assumptions (size, n) through the guard expression; E2 gates per version; instruction-order rule; provenance of allocation sizes; E7 key agreement"
+	// ERRUSE: no error of a data-fallible module call is lost on the way (shared rule, erruse.go)
+	moduleErrorsConsumed(e, erruseEntries, 10, "signedexchange.")
 
 	// (a)
 	eb := e.fn("signedexchange/internal/bigendian.EncodeBytesUint")
@@ -268,6 +270,9 @@ func checkC02(e *Env) {
 	e.requireStore("RESULT", mp, "param:e.Payload", "call:(*bytes.Buffer).Bytes(local:buf)", "the MI-encoded payload")
 	// one header entry per field, one record per element
 	iterationsIndependent(e, "ITER", e.fns("signedexchange.(*Exchange).Write", "signedexchange.ReadExchangePrologue", "signedexchange.(*Exchange).MiEncodePayload", "signedexchange.verifyPayload")...)
+	// the payload handed back by Verify comes out of the MI decoder: its unit
+	// logic is part of the round trip (seed C02-f)
+	c15Obligations(e, "C02 inherits")
 	e.R.Floor("ITER", 6)
 	e.R.Floor("TABLE", 14)
 	e.R.Floor("GATE", 40)
